@@ -307,6 +307,9 @@ func (r *gRun) matchOracles(add func(sig, format string, a ...any)) {
 			}
 			got := map[int]bool{}
 			for _, row := range rows {
+				if got[row] && row >= 0 {
+					add("c06-slice-duplicate", "slice point %s holds component row %d more than once: %v", key, row, objs)
+				}
 				got[row] = true
 			}
 			for c := range want {
